@@ -624,7 +624,8 @@ class _NullQuery(Query):
         return not self.__eq__(other)
 
     def __hash__(self):
-        return id(self)
+        # All null queries compare equal (see __eq__), so they must hash equal
+        return hash(self.__class__.__name__)
 
     def __copy__(self):
         return self
